@@ -7,7 +7,11 @@ pub open spec fn ceil_div(a: nat, b: nat) -> nat { ((a + b - 1) / (b as int)) as
 pub open spec fn min_nat(a: nat, b: nat) -> nat { if a <= b { a } else { b } }
 /// the cached iterator of an old table expects exactly the buckets that are still occupied
 pub open spec fn sync<T>(lo: OldTable<T>) -> bool {
-    lo.items@.table == lo.table@.id && lo.items@.remaining == lo.table@.items.dom()
+    &&& lo.items@.table == lo.table@.id
+    &&& lo.items@.remaining == lo.table@.items.dom()
+    // hashbrown's RawIter cannot be told about removals of zero-sized elements (`reflect_remove` uses `offset_from`),
+    // so a table of zero-sized elements must never be parked as leftovers
+    &&& size_of::<T>() != 0
 }
 /// the main table can take every leftover element plus the insertions needed to move them
 pub open spec fn headroom(g: nat, l: nat) -> bool { g >= l + ceil_div(l, R as nat) }
